@@ -93,6 +93,25 @@ def check_score(P, R, key, client_terms):
                 pools.append(n)
     if not pools:
         R.violation("COVER.pool", key, "pooling of a multi-statistics probe", "several statistics of one probe are no longer pooled")
+    # the pooling applies to every probe of more than one statistics object: a length test that guards it is `> 1` (`>= 2`, `!= 1`)
+    from ..cfg import guards_of as _gof11
+    for n in pools:
+        for t_, pol_ in _gof11(n._stmt if hasattr(n, "_stmt") else get_defuse(next(sc_ for sc_ in scopes if any(n is x for x in ast.walk(sc_.node))), P).stmt_of(n)):
+            seq_ = n.args[0] if n.args else None
+            if src(n.func).endswith("reduce") and len(n.args) >= 2:
+                seq_ = n.args[1]
+            base_ = seq_
+            while isinstance(base_, ast.Subscript):
+                base_ = base_.value
+            conj_ = t_.values if isinstance(t_, ast.BoolOp) and isinstance(t_.op, ast.And) else [t_]
+            if not pol_ and len(conj_) > 1:
+                continue  # the negation of a conjunction says nothing about one conjunct
+            for cmp_ in [x for x in conj_ if isinstance(x, ast.Compare) and len(x.ops) == 1 and isinstance(x.left, ast.Call) and isinstance(x.left.func, ast.Name) and x.left.func.id == "len" and isinstance(x.comparators[0], ast.Constant) and x.left.args and base_ is not None and src(x.left.args[0]) == src(base_)]:
+                k_, op_ = x.comparators[0].value if False else cmp_.comparators[0].value, cmp_.ops[0]
+                more_than_one = (isinstance(op_, ast.Gt) and k_ == 1) or (isinstance(op_, ast.GtE) and k_ == 2) or (isinstance(op_, ast.NotEq) and k_ == 1)
+                one = (isinstance(op_, ast.Eq) and k_ == 1) or (isinstance(op_, ast.LtE) and k_ == 1) or (isinstance(op_, ast.Lt) and k_ == 2)
+                okg = (more_than_one and pol_) or (one and not pol_)
+                R.check(okg, "COVER.pool-guard", key, f"pooling under `{src(cmp_)}`", "pooled whenever there is more than one statistics object", f"the pooling is guarded by `{src(cmp_)}`{'' if pol_ else ' (else arm)'}: a probe of some length greater than one is not pooled, and only its first statistics object is scored", cmp_.lineno)
     for n in pools:
         if isinstance(n.func, ast.Name) and n.func.id == "sum":
             seq = n.args[0] if n.args else None
